@@ -254,3 +254,24 @@ Theorem C18_heap_keyless_run_is :
   exk_run = MergeHeapDefs.cJSONUtils_MergePatchCaseSensitive nofail (Some 1%positive) (Some 10%positive) exk_heap /\
   exk_after = out_heap exk_run exk_heap.
 Proof. exact exk_run_is. Qed.
+
+(** OUTSIDE [nofail] (the observation of DESIGN 11.6, now reproduced by the heap-level model): the same heap with
+    the fifth allocation request refused — the copy of the name "c" inside
+    cJSON_AddItemToObject(target, "c", replacement).  merge_patch ignores the refusal: the call returns the target
+    as a healthy tree {"f":"g"} that is NOT the RFC 7396 result (member "c" is gone), and the patched member — node 3
+    with its old key and the new "e":[1] — stays allocated as a detached tree that nothing reaches. *)
+Theorem C18_heap_alloc_failure_observed :
+  out_val exf_run = Some (Some 1%positive) /\
+  out_val (CoreOps.dump_node 50 (Some 1%positive) exf_after) = Some (Some (exf_result, true)) /\
+  Rfc7396.doc_eq exf_result (Rfc7396.merge (Some (reify exh_St exh_target)) (reify exh_St exh_patch)) = false /\
+  h_lnk exf_after !! 3%positive = Some (None, None) /\
+  out_val (CoreOps.dump_node 50 (Some 3%positive) exf_after) =
+    Some (Some (Tree.Node c_cJSON_Object None 0 dzero (Some [99])
+                  [Tree.Node c_cJSON_Array None 0 dzero (Some [101]) [exh_num1]], true)) /\
+  forallb (fun b => bool_decide (b ∈ lib_live exf_after)) [3; 103; 1000; 1002; 1003]%positive = true.
+Proof. exact alloc_failure_observed. Qed.
+Print Assumptions C18_heap_alloc_failure_observed.
+Theorem C18_heap_alloc_failure_run_is :
+  exf_run = MergeHeapDefs.cJSONUtils_MergePatchCaseSensitive exf_oracle (Some 1%positive) (Some 10%positive) exh_heap /\
+  exf_after = out_heap exf_run exh_heap /\ exf_oracle = (fun k => Nat.eqb k 4).
+Proof. exact exf_run_is. Qed.
